@@ -53,6 +53,17 @@ def propagatorF (order : Nat) (kx ky dz wl ms : Float) (tilts : List (Float × F
   let a := f.scale (apertureF kx ky ms)
   pure (tilts.foldl (fun acc t => (tiltFactorF kx ky t.1 t.2 dz).mul acc) a)
 
+/-- The tilt list `FresnelPropagator._calculate_array` applies: the scalar base tilt (`waves.base_tilt`, metadata) unless it
+equals `(0.0, 0.0)`, then — walking `waves.ensemble_axes_metadata` from the last axis to the first — the member tilt of every
+axis that has a `.tilt` (`none` = an ensemble axis without tilt: broadcast dimension only). -/
+def calcTilts (base : Float × Float) (axes : List (Option (Float × Float))) : List (Float × Float) :=
+  (if base.1 != 0 || base.2 != 0 then [base] else []) ++ axes.reverse.filterMap id
+
+/-- one member of the array returned by `FresnelPropagator._calculate_array` -/
+def calcArrayF (order : Nat) (kx ky dz wl ms : Float) (base : Float × Float) (axes : List (Option (Float × Float))) :
+    Except String CF :=
+  propagatorF order kx ky dz wl ms (calcTilts base axes)
+
 def transmissionF (sigma v : Float) : CF := cexpF (transmissionPhase sigma v)
 
 end AbtemVerif.PropagatorModel
